@@ -252,3 +252,54 @@ Qed.
 (* the fixed-width int encodings are the fixed-width uint encodings of the flipped value: the two call sites agree *)
 Lemma encode_int_is_uint v : encode_int v = encode_uint (int_to_cmp v) /\ encode_int_desc v = encode_uint_desc (int_to_cmp v).
 Proof. split; reflexivity. Qed.
+
+(* --- the bit-level form the code uses: uint64(v) ^ signMask and int64(u ^ signMask) --- *)
+Lemma land_small_pow2 a n : a < 2 ^ n -> N.land a (2 ^ n) = 0.
+Proof.
+  intros H. apply N.bits_inj. intro m. rewrite N.land_spec, N.pow2_bits_eqb, N.bits_0.
+  destruct (N.eqb_spec n m) as [E|E]; [subst m|apply Bool.andb_false_r].
+  rewrite Bool.andb_true_r. destruct (N.eq_dec a 0) as [Z|NZ]; [subst a; apply N.bits_0|].
+  apply N.bits_above_log2. apply N.log2_lt_pow2; [lia|exact H].
+Qed.
+Lemma xor_flip_low a : a < two63 -> N.lxor a two63 = a + two63.
+Proof.
+  intros H. symmetry. apply N.add_nocarry_lxor. change two63 with (2 ^ 63). apply land_small_pow2. exact H.
+Qed.
+Lemma xor_flip_high a : a < two63 -> N.lxor (a + two63) two63 = a.
+Proof.
+  intros H. rewrite <- (xor_flip_low a H). rewrite N.lxor_assoc, N.lxor_nilpotent, N.lxor_0_r. reflexivity.
+Qed.
+Lemma int_to_cmp_is_xor v : int64_range v -> int_to_cmp v = int_to_cmp_xor v.
+Proof.
+  intros H. unfold int64_range in H. unfold int_to_cmp_xor, u64_of_int, int_to_cmp.
+  destruct (Z_lt_le_dec v 0) as [Hn|Hp].
+  - replace (v mod Z.of_N two64)%Z with (v + Z.of_N two64)%Z
+      by (apply Z.mod_unique with (q := (-1)%Z); unfold two63, two64 in *; lia).
+    replace (Z.to_N (v + Z.of_N two64)) with (Z.to_N (v + Z.of_N two63) + two63) by (unfold two63, two64 in *; lia).
+    symmetry. apply xor_flip_high. unfold two63 in *. lia.
+  - rewrite Z.mod_small by (unfold two63, two64 in *; lia).
+    rewrite xor_flip_low by (unfold two63 in *; lia). unfold two63 in *. lia.
+Qed.
+Lemma cmp_to_int_is_xor u : u < two64 -> cmp_to_int u = cmp_to_int_xor u.
+Proof.
+  intros H. unfold cmp_to_int_xor, int_of_u64, cmp_to_int.
+  destruct (N.lt_ge_cases u two63) as [L|G].
+  - rewrite xor_flip_low by exact L.
+    destruct (Z.ltb_spec (Z.of_N (u + two63)) (Z.of_N two63)); unfold two63, two64 in *; lia.
+  - assert (E : N.lxor u two63 = u - two63).
+    { replace u with ((u - two63) + two63) at 1 by (unfold two63 in *; lia).
+      apply xor_flip_high. unfold two63, two64 in *. lia. }
+    rewrite E. destruct (Z.ltb_spec (Z.of_N (u - two63)) (Z.of_N two63)); unfold two63, two64 in *; lia.
+Qed.
+Lemma int_of_u64_of_int v : int64_range v -> u64_of_int v < two64 /\ int_of_u64 (u64_of_int v) = v.
+Proof.
+  intros H. unfold int64_range in H. unfold int_of_u64, u64_of_int.
+  destruct (Z_lt_le_dec v 0) as [Hn|Hp].
+  - replace (v mod Z.of_N two64)%Z with (v + Z.of_N two64)%Z
+      by (apply Z.mod_unique with (q := (-1)%Z); unfold two63, two64 in *; lia).
+    split; [unfold two63, two64 in *; lia|].
+    destruct (Z.ltb_spec (Z.of_N (Z.to_N (v + Z.of_N two64))) (Z.of_N two63)); unfold two63, two64 in *; lia.
+  - rewrite Z.mod_small by (unfold two63, two64 in *; lia).
+    split; [unfold two63, two64 in *; lia|].
+    destruct (Z.ltb_spec (Z.of_N (Z.to_N v)) (Z.of_N two63)); unfold two63, two64 in *; lia.
+Qed.
